@@ -651,6 +651,25 @@ func catalogue() []variant {
 		}
 		return c.num - 103
 	})))
+	// a tx with an old block ref (index path of the duplicate lookup) that the parent / grandparent packed
+	replayOldRef := func(back uint32) func(c *mctx, m *mut) bool {
+		return func(c *mctx, m *mut) bool {
+			if c.num < 104+back {
+				return false
+			}
+			for _, t := range c.w.blocks[c.num-back].Transactions() {
+				if t.BlockRef().Number()+100 < c.num-back && !t.IsExpired(c.num) && t.DependsOn() == nil && !c.w.txs[t.ID()].reverted {
+					c.room(m)
+					m.txs = append(m.txs, t)
+					m.reexec = true
+					return true
+				}
+			}
+			return false
+		}
+	}
+	add(hdr("tx_dup_on_chain", "replay_old_ref_from_parent", rej, replayOldRef(1)))
+	add(hdr("tx_dup_on_chain", "replay_old_ref_from_grandparent", rej, replayOldRef(2)))
 	farDep := func(wantReverted bool) func(c *mctx, m *mut) bool {
 		return func(c *mctx, m *mut) bool {
 			if c.num < 4 {
